@@ -165,7 +165,9 @@ Definition with_neterr (e : entry) : entry :=
 (* ownedByOther: the ID names a response that is being served to another peer *)
 Definition owned_by_other (t : list (rid * entry)) (r : rid) (p : peer) : bool :=
   match aget r t with Some e => negb (N.eqb (e_peer e) p) | None => false end.
-(* select { case signal <- x: default: }  on a one-slot channel *)
+(* SignalSendNonBlocking: abortRequest / pauseRequest / processUpdate signal a running response's executor with
+   select { case signal <- x: default: }  on a one-slot channel: when the slot is taken (the executor has not drained
+   the previous signal, e.g. because it is parked on a reservation) the new signal is DROPPED, the loop never waits *)
 Definition raise_sig (e : entry) (x : sig) : entry :=
   match e_sig e with SigNone => with_sig e x | _ => e end.
 
